@@ -5,6 +5,7 @@ import (
 	"fmt"
 	"os"
 	"sort"
+	"strconv"
 	"strings"
 
 	"github.com/syndtr/goleveldb/leveldb"
@@ -164,6 +165,9 @@ func buildScenario(c *xs.Ctx, r *xs.Result, sc schedScenario) sched.Scenario {
 				mgr.Stop()
 				removeAll(dir)
 			}()
+			if x.Skipped {
+				return
+			}
 			rep := map[string]interface{}{"scenario": sc.name, "schedule": x.Choices}
 			if x.Deadlock {
 				r.Violate("C07:sched:"+sc.name+":deadlock", "deadlock between writer and readers", rep)
@@ -207,6 +211,13 @@ func runSched(c *xs.Ctx, r *xs.Result) {
 	if c.Thorough() {
 		bound = 2
 	}
+	if k, _ := strconv.Atoi(os.Getenv("VERIF_C07_PROBE")); k > 0 { // development aid: determinism self-test of the scenarios
+		for _, sc := range schedScenarios {
+			e := &sched.Explorer{Scenario: buildScenario(c, r, sc)}
+			fmt.Fprintf(os.Stderr, "PROBE %s: %q\n", sc.name, e.Probe(k))
+		}
+		return
+	}
 	for _, sc := range schedScenarios {
 		e := &sched.Explorer{Scenario: buildScenario(c, r, sc), Bound: bound, Deadline: c.Deadline, Shard: c.Shard, NShards: c.NShards}
 		e.Explore()
@@ -214,6 +225,12 @@ func runSched(c *xs.Ctx, r *xs.Result) {
 		r.Count("sched_points", e.Stats.Points)
 		r.Count("sched_states", e.Stats.Executions)
 		r.Count("sched_deadlocks", e.Stats.Deadlocks)
+		if e.Stats.DivergentSkipped > 0 {
+			r.Incomplete = true
+			r.Count("sched_divergent_prefixes_skipped", e.Stats.DivergentSkipped)
+			r.Note("C07 sched %s: %d choice prefixes did not reproduce their recorded execution after 5 retries and were skipped (last: %s)", sc.name, e.Stats.DivergentSkipped, e.Stats.LastDivergence)
+		}
+		r.Count("sched_divergence_retries", e.Stats.DivergenceRetries)
 		if e.Stats.Incomplete {
 			r.Incomplete = true
 			r.Note("C07 sched %s: deadline before bound %d completed", sc.name, bound)
